@@ -202,8 +202,23 @@ def consumer(rng, i):
             steps.append({"do": "dropc", "h": h, "c": c})
             live.remove((h, c))
         elif r < 0.8:
-            steps.append(srv({"k": "cancel", "ch": ch, "tag": c, "nowait": rng.random() < 0.5}))
-            steps.append({"do": "sync"})
+            nowait = rng.random() < 0.5
+            r2 = rng.random()
+            if r2 < 0.25:
+                # the client's cancel and the server's cancel cross
+                steps.append({"do": "hold", "ch": ch})
+                steps.append({"do": "cancel", "h": h, "c": c, "async": True})
+                steps.append({"do": "sync"})
+                steps.append(srv({"k": "cancel", "ch": ch, "tag": c, "nowait": nowait}))
+                steps.append({"do": "unhold", "ch": ch})
+                steps.append({"do": "release", "ch": ch})
+                steps.append({"do": "wait", "who": h})
+            else:
+                steps.append(srv({"k": "cancel", "ch": ch, "tag": c, "nowait": nowait}))
+                steps.append({"do": "sync"})
+                if r2 < 0.6:
+                    # the application cancels / drops a consumer the server has already cancelled
+                    steps.append({"do": rng.choice(["cancel", "dropc"]), "h": h, "c": c})
             live.remove((h, c))
         elif r < 0.88:
             steps.append({"do": "close", "h": h})
@@ -307,6 +322,52 @@ def listeners(rng, i):
     return {"kind": "listeners", "cfg": {}, "steps": steps}
 
 
+def listener_cross(rng, i):
+    """One kind of listener is dropped (or never registered) and its events are discarded; the
+    other kinds of listener on the same channel / connection must not be disturbed."""
+    steps, ids = opens(2, rng.sample(range(1, 20), 2))
+    hs = ["A", "B"]
+    mid = 1000 * (i % 2000) + 500
+    have = {}
+    steps.append({"do": "listen", "h": "conn", "what": "blocked", "as": "BL"})
+    for h in hs:
+        steps.append(op(h, "select"))
+        for what in ("confirms", "returns"):
+            if rng.random() < 0.85:
+                name = "L%s%s" % (h, what[0])
+                steps.append({"do": "listen", "h": h, "what": what, "as": name})
+                have[(h, what)] = name
+    steps.append({"do": "sync"})
+    victim_h = rng.choice(hs)
+    victim_what = rng.choice(["confirms", "returns"])
+    if (victim_h, victim_what) in have:
+        steps.append({"do": "dropl", "l": have.pop((victim_h, victim_what))})
+
+    def event(h, what):
+        nonlocal mid
+        ch = ids[h]
+        if what == "confirms":
+            return srv({"k": rng.choice(["ack", "nack"]), "ch": ch, "dtag": rng.randrange(1, 5), "multiple": rng.random() < 0.3})
+        mid += 1
+        return srv({"k": "return", "ch": ch, "mid": mid, "len": 6, "chunks": [2, 4], "code": 312, "text": "NO_ROUTE"})
+
+    # events of the dropped kind first (discard path), then of every kind on every channel
+    for _ in range(rng.randrange(1, 3)):
+        steps.append(event(victim_h, victim_what))
+    steps.append({"do": "sync"})
+    for h in hs:
+        for what in ("confirms", "returns"):
+            for _ in range(rng.randrange(1, 3)):
+                steps.append(event(h, what))
+    steps.append(srv({"k": "blocked", "text": "alarm %d" % i}))
+    steps.append({"do": "sync"})
+    for name in list(have.values()) + ["BL"]:
+        steps.append({"do": "drain", "l": name})
+    steps.append(op("A", "qos"))
+    steps.append({"do": "closeconn"})
+    return {"kind": "listener-cross", "cfg": {}, "steps": steps}
+
+
 # --------------------------------------------------------------------------- C08 / C09
 def session_prefix(rng, i, n=None):
     """channels with consumers, held calls, queued publishes: a 'session state'"""
@@ -387,13 +448,37 @@ def connclose(rng, i):
     return {"kind": "connclose-" + who, "cfg": cfg, "steps": steps}
 
 
+def close_slow(rng, i):
+    """Client close with heartbeats negotiated (1 s) while the server takes its time to answer
+    CloseOk (it keeps sending heartbeats): nothing may follow the client's Close."""
+    steps, ids = opens(1, [1])
+    steps.append(op("A", "qos"))
+    steps.append({"do": "hold", "ch": 0})
+    steps.append({"do": "closeconn", "async": True})
+    total = [1300, 2600, 3400][i % 3]
+    t = 0
+    while t + 700 <= total:
+        steps.append({"do": "sleep", "ms": 700})
+        steps.append(srv({"k": "hb", "ch": 0}))
+        t += 700
+    steps.append({"do": "sleep", "ms": total - t})
+    steps.append({"do": "unhold", "ch": 0})
+    steps.append({"do": "release", "ch": 0})
+    steps.append({"do": "wait", "who": "conn"})
+    return {"kind": "connclose-slow", "cfg": {"heartbeat": 1, "tune": [2047, 131072, 1]}, "steps": steps}
+
+
 def chanclose(rng, i):
     steps, ids, hs, cons, inflight = session_prefix(rng, i, n=rng.choice([2, 3]))
     victim = rng.choice(hs)
     ch = ids[victim]
     code = rng.choice([404, 406, 403])
     text = rng.choice(["NOT_FOUND - no queue 'q'", "PRECONDITION_FAILED", ""])
-    steps.append(srv({"k": "chclose", "ch": ch, "code": code, "text": text}))
+    if victim in inflight and rng.random() < 0.6:
+        # the server answers the call in flight and closes the channel in the same burst
+        steps.append(dict(srv({"k": "chclose", "ch": ch, "code": code, "text": text}), release=ch))
+    else:
+        steps.append(srv({"k": "chclose", "ch": ch, "code": code, "text": text}))
     if rng.random() < 0.5:
         steps.append({"do": "sync"})
     others = [h for h in hs if h != victim]
@@ -557,7 +642,7 @@ def batches(rng, maxlen, bases, reps=1):
     return res
 
 
-FAMILIES = {"consumer_drop": consumer_drop, "rpc": rpc, "content": content, "consumer": consumer, "listeners": listeners,
+FAMILIES = {"listener_cross": listener_cross, "close_slow": close_slow, "consumer_drop": consumer_drop, "rpc": rpc, "content": content, "consumer": consumer, "listeners": listeners,
             "connclose": connclose, "chanclose": chanclose}
 
 
